@@ -1044,6 +1044,41 @@ func runC18() {
 			c.predicateIdentities(xs, p, []int{0, 1, 2, 3})
 		}
 	}
+	// the identities over a collection that an EARLIER run on the same vm.VM returned (the documented reuse pattern: one machine, the
+	// result of one rule fed to the next): both sides of an identity see the same, unchanged collection
+	{
+		machine := &vm.VM{}
+		base := *c.envs[0]
+		for _, first := range []string{"map(AI, {# * 10})", "filter(1..9, {# % 2 == 0})", "[I, I + 1, I + 2, 40]", "map(1..4, {[#, #]})"} {
+			p1, err := expr.Compile(first, expr.Env(&base))
+			if err != nil {
+				continue
+			}
+			out, rerr := machine.Run(p1, &base)
+			arr, ok := out.([]interface{})
+			if rerr != nil || !ok {
+				continue
+			}
+			want := c18Show(arr, 4)
+			env2 := base
+			env2.AA = arr
+			for _, id := range []string{"len(filter(AA, {# != 20})) == count(AA, {# != 20})", "all(AA, {[#, #][0] == #})", "count(AA, {true}) == len(map(AA, {#}))", "len(AA) == len(map(AA, {[#]}))",
+				"none(AA, {# == nil}) == not any(AA, {# == nil})", "filter(AA, {true}) == AA", "map(AA, {#}) == AA"} {
+				p2, err := expr.Compile(id, expr.Env(&env2))
+				if err != nil {
+					continue
+				}
+				got, rerr := machine.Run(p2, &env2)
+				c.rep.Evaluations++
+				c.rep.hist("identity over a collection returned by an earlier run on the same VM")
+				if rerr != nil || got != true || c18Show(arr, 4) != want {
+					c.rep.fail(Failure{Key: "C18-reused-vm-identity", What: "an identity fails over a collection that an earlier run on the same vm.VM returned (or that collection changed)",
+						Input: map[string]interface{}{"earlier run": first, "identity": id, "collection": want}, Want: "true, collection unchanged", Got: fmt.Sprintf("%v / %v, collection now %s", c18Show(got, 3), rerr, c18Show(arr, 4))})
+					break
+				}
+			}
+		}
+	}
 	// native oracle over AI
 	for _, m := range c18Modes {
 		for ei := range c.envs {
@@ -1257,4 +1292,24 @@ func c18replay(c *c18ctx) {
 		fmt.Printf("identity %s, mode %s, %s\n  lhs %s\n      -> %s\n  rhs %s\n      -> %s\n", in.Identity, m.Name, c.envNote(in.Env),
 			in.Lhs, c18show(l, lok), in.Rhs, c18show(r, rok))
 	}
+}
+
+// c18Show prints nested []interface{} values to a bounded depth (a corrupted result may contain itself).
+func c18Show(v interface{}, depth int) string {
+	xs, ok := v.([]interface{})
+	if !ok {
+		return fmt.Sprintf("%T(%v)", v, v)
+	}
+	if depth == 0 {
+		return "[...]"
+	}
+	parts := make([]string, 0, len(xs))
+	for i, x := range xs {
+		if i == 12 {
+			parts = append(parts, "...")
+			break
+		}
+		parts = append(parts, c18Show(x, depth-1))
+	}
+	return "[" + strings.Join(parts, " ") + "]"
 }
